@@ -1139,7 +1139,13 @@ func TestDecode(t *testing.T) {
 	defer stopWorker()
 	known := activeKnown()
 	o := &tgen.Opts{Small: true, EnumI32Only: true, NoWideIDs: evid.KnownActive(classWideIDs)}
-	evid.Check(t, "Decode", 900, func(rt *rapid.T) {
+	// While the allocation / short-read defects are listed every few cases cost
+	// a worker restart or a stall; on a tree without them a case takes ~0.2 ms.
+	n := 6000
+	if evid.KnownActive(classAlloc) || evid.KnownActive(classShortRead) {
+		n = 900
+	}
+	evid.Check(t, "Decode", n, func(rt *rapid.T) {
 		before := o.Avoided["id-range-beyond-bitmap"]
 		c := genCase(rt, o)
 		for i := before; i < o.Avoided["id-range-beyond-bitmap"]; i++ {
